@@ -81,7 +81,33 @@ func genRows(r *gen.Rand, maxN, maxL int) []string {
 	if r.Chance(0.3) {
 		rows[n-1] = rows[0]
 	}
+	if L%4 == 0 && r.Chance(0.25) {
+		// two rows at exactly 3/4 differences (infinite raw JC69 distance), upper case and gap free
+		a := r.Str(L, "ACGT")
+		i, j := r.Intn(n), r.Intn(n)
+		if i != j {
+			rows[i], rows[j] = a, exactlySaturated(r, a)
+		}
+	}
 	return rows
+}
+
+// exactlySaturated returns a copy of s (over ACGT) in which exactly three positions out of four hold another
+// nucleotide: the observed proportion of differences is exactly 3/4, where the JC69 logarithm is log(0)
+// (an infinite, not a NaN, raw distance).
+func exactlySaturated(r *gen.Rand, s string) string {
+	b := []byte(s)
+	p := r.Perm(len(b))
+	for _, j := range p[:3*len(b)/4] {
+		for {
+			ch := "ACGT"[r.Intn(4)]
+			if ch != b[j] {
+				b[j] = ch
+				break
+			}
+		}
+	}
+	return string(b)
 }
 
 func genOpts(r *gen.Rand, L int, intWeights bool) ref.NtOpts {
@@ -127,6 +153,17 @@ func illConditioned(rows []string, o ref.NtOpts) bool {
 		}
 	}
 	return false
+}
+
+func transposed(m [][]float64) [][]float64 {
+	t := make([][]float64, len(m))
+	for i := range t {
+		t[i] = make([]float64, len(m))
+		for j := range t[i] {
+			t[i][j] = m[j][i]
+		}
+	}
+	return t
 }
 
 func sameMatrix(a, b [][]float64, perm []int, scale float64) string {
@@ -178,6 +215,19 @@ func runMeta(c *mon.Case) {
 	c.Input(map[string]interface{}{"rows": rows, "opts": o, "relation": rel, "one_model_object_for_all_calls": reuse})
 	if illConditioned(rows, o) {
 		c.Count("skipped:ill-conditioned")
+		// the order of the two rows of a pair is an order too: even where the relations between two alignments
+		// are not decidable (rounding next to a saturation), one matrix is symmetric, undefined entries included
+		if m, err := dist(mkAl(rows), o, 1); err == nil {
+			if perm := make([]int, len(rows)); true {
+				for i := range perm {
+					perm[i] = i
+				}
+				if msg := sameMatrix(m, transposed(m), perm, 1); msg != "" {
+					c.Failf("relation:symmetry:"+o.Model, "the matrix is not symmetric (%s): rows=%q opts=%+v", msg, rows, o)
+				}
+				c.Count("relation:symmetry-of-ill-conditioned")
+			}
+		}
 		return
 	}
 	objects := "a fresh model object per call"
@@ -193,6 +243,10 @@ func runMeta(c *mon.Case) {
 	base, err := dist(al, o, 1)
 	if err != nil {
 		c.Failf("unexpected-error", "%v", err)
+		return
+	}
+	if msg := sameMatrix(base, transposed(base), nil, 1); msg != "" {
+		c.Failf("relation:symmetry:"+o.Model, "the matrix is not symmetric (%s): rows=%q opts=%+v", msg, rows, o)
 		return
 	}
 	fail := func(msg string, rows2 []string, o2 ref.NtOpts) {
